@@ -15,8 +15,15 @@ Tie B, two streams.
 (2) Corruptions of a real cache file through `target_cache_file_is_up_to_date` in-process
     (`impl.outcome_of`): truncation at EVERY byte offset, every node of the document replaced by
     null / numbers / bool / strings / lists / dicts, top-level scalars, arrays, strings naming a
-    field, empty file, BOM, invalid UTF-8; a sample re-run through the CLI. Expected: stale. The Lean
-    model of `deserialise` (`Cache.structureDoc`) must predict the exact outcome class of every case.
+    field, empty file, BOM, invalid UTF-8, values json.loads itself refuses (nesting depth, int size),
+    import paths that are not files / cannot be stat'ed / cannot be read; a sample re-run through the
+    CLI. Expected: stale. The Lean model of `deserialise` + gate (`Cache.structureDoc`, `Cache.gateJIO`)
+    must predict the exact outcome class of every case.
+
+    Since the upstream fix 16f7ad6 (`except Exception` around read_text/deserialise) every former
+    `cache-gate-crash:*` class is answered stale; the stream is kept unchanged so that a regression is
+    a VIOLATION (those signatures are `fixed`, not `known`, in known_findings.json). What can still
+    raise is the conjunction after the try: OSError from hash_file_content on an unreadable regular file.
 """
 from __future__ import annotations
 
@@ -520,9 +527,34 @@ def classify_bytes(b):
         return {"k": "notUtf8"}
     try:
         v = json.loads(t)
-    except json.JSONDecodeError:
+    except (ValueError, RecursionError):
+        # JSONDecodeError, or json.loads refusing a value it could lex (int digit limit, nesting
+        # depth): for the gate all of these are "loads raised"
         return {"k": "notJson"}
     return {"k": "json", "v": tag(v)}
+
+
+# paths an import entry may be made to name: not files, not stat-able, or files that cannot be read
+EXOTIC_PATHS = ["a\x00b", "x" * 5000, ".", "/", "/dev/null", "/proc/self/mem", "no/such/file", "\ud800"]
+
+
+def path_facts(paths_):
+    """Independent reading of what hash_file_content will meet: (files [[p, md5]], unreadable [p])."""
+    files, unreadable = [], []
+    for p in paths_:
+        try:
+            isf = os.path.isfile(p)
+        except Exception:
+            isf = False
+        if not isf:
+            continue
+        try:
+            with open(p, "rb") as f:
+                files.append([p, md5(f.read(1 << 22))])
+        except OSError:
+            files.append([p, ""])
+            unreadable.append(p)
+    return files, unreadable
 
 
 def corruption_cases(good_bytes, tier, rng):
@@ -550,6 +582,11 @@ def corruption_cases(good_bytes, tier, rng):
                    "bytes": json.dumps(setp(good, p, r), indent=4).encode(),
                    "expect": "stale" if typed else "any-but-crash", "kind": kind(r)}
         # a missing key is a change of the enclosing object
+        if cls in ("imports[].filepath", "filepath") and (len(p) == 1 or p[1] == 0):
+            for r in EXOTIC_PATHS:
+                yield {"label": f"{'/'.join(map(str, p))}<-{json.dumps(r)[:40]}", "shape": "field:" + cls,
+                       "bytes": json.dumps(setp(good, p, r), indent=4).encode(), "expect": "any-but-crash",
+                       "kind": "string"}
         yield {"label": f"delete:{'/'.join(map(str, p))}", "shape": "field:" + pathclass(p[:-1]) if len(p) > 1 else "top-level-object",
                "bytes": json.dumps(delp(good, p), indent=4).encode(), "expect": "any-but-crash"}
     tops = [None, 0, 1, -1, 1.5, True, False, "s", "", "version", "xfilepathx", "results", [], [1], ["imports"],
@@ -572,7 +609,9 @@ def corruption_cases(good_bytes, tier, rng):
             (good_bytes + b"}", "trailing-garbage"), (good_bytes + good_bytes, "trailing-garbage"),
             (good_bytes.replace(b":", b"=", 1), "not-json"), (b"{'version': 'dev'}", "not-json"),
             (good_bytes[1:], "not-json"), (b"\x00" * 16, "not-json"),
-            ("{\"version\": \"dév\"}".encode("latin-1"), "not-utf8")]
+            ("{\"version\": \"dév\"}".encode("latin-1"), "not-utf8"),
+            (b"[" * 100000 + b"]" * 100000, "json-loads-raises"),
+            (b'{"version": ' + b"9" * 5000 + b"}", "json-loads-raises")]
     for b, shape in raws:
         yield {"label": "raw:" + shape + ":" + b[:12].hex(), "shape": shape, "bytes": b, "expect": "stale"}
     if tier == "thorough":
@@ -640,7 +679,10 @@ def corruption_stream(res, tier, rng, model):
         for i in good["imports"]:
             if os.path.isfile(i["filepath"]):
                 files.append([i["filepath"], md5(Path(i["filepath"]).read_bytes())])
-        world = {"target": "target.py", "files": files, "emptyHash": md5(b""), **facts}
+        xfiles, unreadable = path_facts(EXOTIC_PATHS)
+        files += xfiles
+        res.extra["unreadable_regular_files_probed"] = unreadable
+        world = {"target": "target.py", "files": files, "unreadable": unreadable, "emptyHash": md5(b""), **facts}
         mouts = model.batch([("cache_gate", {"file": classify_bytes(c["bytes"]), "world": world}) for c in cases])
         for c, io, mo in zip(cases, outs, mouts):
             res.evaluations += 1
@@ -673,7 +715,7 @@ def corruption_stream(res, tier, rng, model):
         # a sample through the real CLI (validates the in-process worker)
         idx = [i for i, c in enumerate(cases) if c["shape"] == "truncated"]
         pick = [idx[len(idx) // 7], idx[len(idx) // 2], idx[-1]] if idx else []
-        want = ["top:null", "top:{\"imports\": [{\"filepath\": 1}]}", "imports<-{}", "raw:not-utf8", "truncate@0",
+        want = ["imports/0/filepath<-\"/proc/self/mem\"", "top:null", "top:{\"imports\": [{\"filepath\": 1}]}", "imports<-{}", "raw:not-utf8", "truncate@0",
                 "filepath<-null", "results<-[]"]
         for w in want:
             for i, c in enumerate(cases):
